@@ -3,6 +3,7 @@ import RactorModel.Lemmas.RpcGroups
 import RactorModel.Lemmas.RpcForward
 import RactorModel.Lemmas.RpcSup
 import RactorModel.Lemmas.CallResult
+import RactorModel.Lemmas.CallRace
 
 /-!
 # C09 — every RPC completes and replies are never cross-wired
@@ -515,6 +516,94 @@ example : check (.success 5) 3 (· + 1) 4
 end CallResultBlock
 /-! ## END CallResult block -/
 
+/-! ## BEGIN CallRace block (agent `ports`): a `call` racing the callee's handlers and exit at the
+granularity of the schedule points inside `send_message` — the interleavings of caller, callee
+and killer that the quiescent-point engine above does not run. Model `Model/CallRace.lean`
+(reply ports are separate one-shot cells addressed by id; the mailbox carries port ids), lemmas
+`Lemmas/CallRace.lean`, tie: E-THR `harness/hcore/src/bin/rpcrace.rs` + `Driver/CallRace.lean`.
+Every theorem is for ALL schedules: any number of callers, any interleaving of their micro-steps
+(status check, ticket CAS with retries, box, push, ticket release, polls) with handler steps and
+the three steps of the callee's exit (`Stopping`, `Stopped`, receiver dropped). -/
+section CallRaceBlock
+open CallRace
+
+/-- (no hang) Once the callee's task has ended, a caller whose send had succeeded and who is
+awaiting its reply gets an answer at its very next poll — `Success` or `SenderError`, never a
+send error. -/
+theorem race_no_hang (sched : List Step) (i : Nat)
+    (hgone : (run init sched).rxAlive = false)
+    (hw : (run init sched).pcs i = .waiting ∨ (run init sched).pcs i = .release true) :
+    ∃ r, (step (run init sched) (.c i)).pcs i = .done r ∧ r ≠ .sendErr :=
+  no_hang (inv_run sched inv_init) i hgone hw
+
+/-- (the caller always comes back) After the callee has exited, a caller — wherever it is inside
+`call`: before the status check, in the ticket CAS loop, about to push — returns within 6 of
+its own steps. -/
+theorem race_caller_terminates (sched : List Step) (i : Nat)
+    (hgone : (run init sched).rxAlive = false) (hst : (run init sched).status ≥ 1) :
+    ∃ n, n ≤ 6 ∧ ∃ r, (solo n (run init sched) i).pcs i = .done r :=
+  caller_terminates (inv_run sched inv_init) i hgone hst
+
+/-- (no cross-wiring, with ports as separate objects) A caller that got `Success v` read it
+from the port IT created; that port was written by the handler that dequeued the message
+carrying this very port id, with this call's value; no port is dequeued twice. -/
+theorem race_success_is_own_reply (sched : List Step) (i v : Nat)
+    (h : (run init sched).pcs i = .done (.success v)) :
+    (run init sched).ports i = .written v ∧ v = val i ∧ (i, some v) ∈ (run init sched).handled ∧
+      ∀ x, (i, x) ∈ (run init sched).handled → x = some v := by
+  have hinv := inv_run sched inv_init
+  have hp := hinv.doneSuccess i v h
+  have hw := hinv.written i v hp
+  exact ⟨hp, hw.1, hw.2, fun x hx => hinv.once i x (some v) hx hw.2⟩
+
+/-- (`SenderError` = own port dropped unanswered) by the handler that dequeued it, or with the
+mailbox when the callee's task ended — and then no handler ever saw it. -/
+theorem race_senderError_cause (sched : List Step) (i : Nat)
+    (h : (run init sched).pcs i = .done .senderError) :
+    (run init sched).ports i = .closed ∧
+      ((i, none) ∈ (run init sched).handled ∨
+        (i ∈ (run init sched).flushed ∧ ∀ x, (i, x) ∉ (run init sched).handled)) := by
+  have hinv := inv_run sched inv_init
+  have := hinv.doneSenderError i h
+  refine ⟨this.1, this.2.elim Or.inl fun a => Or.inr ⟨a, fun x hx => hinv.flushedFresh i x hx a⟩⟩
+
+/-- (a refused send is never handled) `Err(SendErr)` means the message never entered the
+mailbox: no handler dequeued it and it was not flushed either. -/
+theorem race_refused_never_handled (sched : List Step) (i : Nat)
+    (h : (run init sched).pcs i = .done .sendErr) :
+    i ∉ (run init sched).queue ∧ (∀ x, (i, x) ∉ (run init sched).handled) ∧
+      i ∉ (run init sched).flushed :=
+  (inv_run sched inv_init).doneSendErr i h
+
+/-- (a waiting caller's port is somewhere live) While a caller is still waiting with an
+unanswered port, the message carrying it is in the mailbox of a callee whose receiver exists. -/
+theorem race_waiting_means_queued (sched : List Step) (i : Nat)
+    (hw : (run init sched).pcs i = .waiting) (hu : (run init sched).ports i = .unset) :
+    i ∈ (run init sched).queue ∧ (run init sched).rxAlive = true := by
+  have hinv := inv_run sched inv_init
+  have hq := hinv.live i (Or.inl hw) hu
+  refine ⟨hq, ?_⟩
+  cases hr : (run init sched).rxAlive with
+  | true => rfl
+  | false => have := hinv.rxGone hr; rw [this] at hq; cases hq
+
+/-- the run-time oracle `CallRace.judge` accepts every result the model hands to a caller -/
+theorem race_oracle_accepts_model (sched : List CallRace.Step) (i : Nat) (r : CallRace.Res)
+    (hr : obsRes (run init sched) i = some r) (gone : Bool) (polls : Nat) :
+    judge (some r) gone polls i (handledAs (run init sched) i) = [] :=
+  judge_resolved (inv_run sched inv_init) i r hr gone polls
+
+-- non-vacuity: the push lands after `Stopped` but before the receiver is dropped — the message
+-- is flushed, the caller gets `SenderError`; and a second caller whose CAS fails once retries
+example : ((run init [.c 0, .c 0, .c 0, .c 0, .c 0, .setStopping, .setStopped, .c 0, .c 0, .dropRx, .c 0]).pcs 0)
+    = .done .senderError := by decide
+example : ((run init [.c 0, .c 0, .c 0, .c 1, .c 1, .c 1, .c 0, .c 1, .c 1]).pcs 1, (run init
+    [.c 0, .c 0, .c 0, .c 1, .c 1, .c 1, .c 0, .c 1, .c 1]).count) = (.box, 2) := by decide
+example : judge none true 1 0 none = ["c09.caller-left-hanging"] := by decide
+
+end CallRaceBlock
+/-! ## END CallRace block -/
+
 end C09
 
 #print axioms C09.ok_reachable
@@ -554,3 +643,10 @@ end C09
 #print axioms C09.callResult_mapOr_via_map
 #print axioms C09.callResult_error_conversion
 #print axioms C09.callResult_oracle_accepts_model
+#print axioms C09.race_no_hang
+#print axioms C09.race_caller_terminates
+#print axioms C09.race_success_is_own_reply
+#print axioms C09.race_senderError_cause
+#print axioms C09.race_refused_never_handled
+#print axioms C09.race_waiting_means_queued
+#print axioms C09.race_oracle_accepts_model
